@@ -23,6 +23,9 @@ Decides:
  A accept sets            which kinds of item each consumer may claim: the value half of `--name=value` (ArgWord) is claimed only as the
                           value of the name in front of it, never by a positional or a command - a stray one is left over and fails the run.
  X alternatives           ParseOrElse adopts exactly one fork (see C07).
+ L ledger callers        only the listed functions call State::remove / State::get / State::set_scope (who-may-call registry).
+ K marker only           the tokenizer drops an item exactly when ArgScanner::check_next says so: check_next returns true only for
+                          `--bpaf-complete-rev=N` (table: an ordinary item, also one that merely starts with `--bpaf-complete-`, gives false).
 Does not decide: that no combination of shapes double-delivers an item through scope arithmetic."""
 import re
 from core import *
@@ -34,7 +37,7 @@ import consumers, scopes, c06
 LEVEL = 'other'
 EXPLANATION = __doc__
 ASSUMPTIONS = ['user closures are pure; third-party Parser impls can only call the public API']
-FLOORS = {'L.ledger': 16, 'P.primitives': 13, 'C.read-remove': 22, 'O.leftover': 2, 'E.discipline': 9, 'S.snapshot': 10, 'R.scope-restore': 4, 'T.tokenizer': 4, 'A.accept-sets': 8}
+FLOORS = {'L.ledger': 16, 'P.primitives': 13, 'C.read-remove': 22, 'O.leftover': 2, 'E.discipline': 9, 'S.snapshot': 10, 'R.scope-restore': 4, 'T.tokenizer': 4, 'A.accept-sets': 8, 'K.marker-only': 2}
 
 def run(ctx):
     cfgs = ['none', 'all'] if ctx.tier == 'quick' else ['none', 'all', 'ac', 'doc', 'dull', 'bat']
